@@ -62,7 +62,12 @@ func VerifHonestStep() {
 	rt.Cover(uerr == nil && m >= 1 && n > m, "honest/growth-accepted")
 	rt.Cover(uerr == nil && m < 0, "honest/first-use-accepted")
 	rt.Cover(uerr == nil && m == n && m > 0, "honest/refresh-accepted")
-	if !signerFailed {
+	if !signerFailed && !rt.Prop("C09") {
 		rt.Assert(uerr == nil && out != nil, "C08/honest-step-accepted")
+	}
+	if rt.Prop("C09") && !signerFailed && !(m == 0 && n > 0) {
+		// the accept rule of the protocol with a proof the independent prover built (H-VC shows the
+		// real verifier and tlog.CheckTree agree on it); growth from a stored empty tree is C08's
+		rt.Assert(uerr == nil, "C09/8-accepted-reference-proof")
 	}
 }
